@@ -293,6 +293,15 @@ def build_cases(tier):
         for j, sp in enumerate(["", "<vector>", "{{ x }}"]):
             cases.append((cid, [block_md("blk", {"body_includes": [mk_line(f"C{j}_", sp), mk_line(f"C{j}b_", sp)]})], (0,), backend))
             cid += 1
+        # include paths that differ only in letter case, a repeated path, and the same path in two blocks
+        cases.append((cid, [block_md("blk", {"body_includes": ["Pkg/Sub/interface/MET.h", "Pkg/Sub/interface/Met.h", "pkg/sub/interface/met.h"]})], (0,), backend))
+        cid += 1
+        cases.append((cid, [block_md("n1", {"body_includes": ["Pkg/A.h", "Pkg/a.h"]}), block_md("n2", {"body_includes": ["PKG/A.H", "Other.h"]})], (0, 1), backend))
+        cid += 1
+    # ATLAS: the same for both include fields
+    for f in ("body_includes", "header_includes"):
+        cases.append((cid, [block_md("blk", {f: ["Pkg/Sub/MET.h", "Pkg/Sub/Met.h", "pkg/sub/met.h"]})], (0,), "atlas"))
+        cid += 1
     # several blocks: menu of relations, all orders, all placements
     def menu(k):
         f1 = FIELDS[k % len(FIELDS)]
